@@ -47,7 +47,8 @@ theorem stage_ok (db : DB) (b : Batch) (hm : (keys b.matched).Nodup) (hok : (ste
     ∃ o : StageOut,
       (step db (.stage b)).1 =
         { db with events := db.events ++ o.es, pendingId := some b.id, pendingAccts := some o.pa,
-                  pendingOrders := some o.po, pendingSnap := some o.snap } ∧
+                  pendingOrders := some o.po, pendingSnap := some o.snap,
+                  noRefs := db.noRefs.filter (fun k => !(b.matched.map (·.1)).contains k) } ∧
       AllStored o.pa ∧ (keys o.pa).Nodup ∧ (keys o.po).Nodup ∧ o.snap.id = b.id ∧ o.snap.matched = b.matched ∧
       (∀ n, lookup n o.po = (lookup n b.matched).bind (fun us => (lookup n db.orders).map (fun x => filled x us))) ∧
       (∀ n us, lookup n b.matched = some us → ∃ x, lookup n db.orders = some x ∧
@@ -76,8 +77,9 @@ theorem stage_ok (db : DB) (b : Batch) (hm : (keys b.matched).Nodup) (hok : (ste
           have hzip : a.orders.zip a.orderMods = lo := by rw [← hs]; exact zip_map_fst_snd lo
           have hid : a.batchId = b.id := by rw [← hs]
           have hmt : a.matched = b.matched := by rw [← hs]
+          have hords : a.orders = b.matched.map (·.1) := by rw [← hs]; exact prepOrders_keys hpo
           refine ⟨o, ?_, h6, h7, h8, by rw [h1, hid], by rw [h3, hmt], ?_, ?_⟩
-          · simp only [commit, hid]
+          · simp only [commit, hid, hords]
           · intro n
             rw [h9 n, hzip, prepOrders_lastFor hpo hm n]
             cases hl : lookup n b.matched with
@@ -113,13 +115,15 @@ theorem C13_fill_exact (db : DB) (b : Batch) (hm : (keys b.matched).Nodup)
   obtain ⟨o, hd, hst, _, hnd, _, _, hpo, hev⟩ := stage_ok db b hm hok
   have hd1 : db1 =
       { db with events := db.events ++ o.es, pendingId := some b.id, pendingAccts := some o.pa,
-                pendingOrders := some o.po, pendingSnap := some o.snap } := hd
+                pendingOrders := some o.po, pendingSnap := some o.snap,
+                noRefs := db.noRefs.filter (fun k => !(b.matched.map (·.1)).contains k) } := hd
   have hp : HasPending db1 ⟨b.id, o.pa, o.po, o.snap⟩ := by rw [hd1]; exact ⟨rfl, rfl, rfl, rfl⟩
   have hm2 := markBatchComplete_pending hp hst
   have h2 : db2 =
       { db1 with accounts := over o.pa db1.accounts, orders := over o.po db1.orders,
                  pendingId := none, pendingAccts := none, pendingOrders := none, pendingSnap := none,
-                 snaps := db1.snaps ++ [o.snap], index := upsert b.id (db1.snaps.length + 1) db1.index } := by
+                 snaps := db1.snaps ++ [o.snap], index := upsert b.id (db1.snaps.length + 1) db1.index,
+                 noRefs := db1.noRefs ++ (keys o.po).filter (fun k => (lookup k db1.orders).isNone) } := by
     show (commit db1 (markBatchCompleteTx db1)).1 = _
     rw [hm2]; rfl
   have hres : (step db1 .complete).2 = none := by
@@ -170,10 +174,10 @@ structure Inv (db0 db : DB) (g : Ghost) : Prop where
   coh : Coh db
   main : ∀ n o0, lookup n db0.orders = some o0 → ∃ o, lookup n db.orders = some o ∧
     (o.unfilled + g.done n) % two64 = o0.unfilled % two64 ∧ o.unfilled < two64 ∧
-    o.units = o0.units ∧ o.minMatch = o0.minMatch
+    o.fixed = o0.fixed
   stagedIn : ∀ st, staged db = some st → ∀ n so, lookup n st.orders = some so → ∃ o, lookup n db.orders = some o ∧
     (so.unfilled + g.pend n) % two64 = o.unfilled % two64 ∧ so.unfilled < two64 ∧
-    so.units = o.units ∧ so.minMatch = o.minMatch
+    so.fixed = o.fixed
   stagedOut : ∀ st, staged db = some st → ∀ n, lookup n st.orders = none → g.pend n = 0
   noStaged : staged db = none → ∀ n, g.pend n = 0
   wf : ∀ n o, lookup n db.orders = some o → o.unfilled < two64
@@ -202,7 +206,8 @@ theorem inv_step {db0 db : DB} {g : Ghost} (h : Inv db0 db g) (op : Op)
       have hstep : step db .complete =
           ({ db with accounts := over st.accts db.accounts, orders := over st.orders db.orders,
                      pendingId := none, pendingAccts := none, pendingOrders := none, pendingSnap := none,
-                     snaps := db.snaps ++ [st.snap], index := upsert st.id (db.snaps.length + 1) db.index },
+                     snaps := db.snaps ++ [st.snap], index := upsert st.id (db.snaps.length + 1) db.index,
+                     noRefs := db.noRefs ++ (keys st.orders).filter (fun k => (lookup k db.orders).isNone) },
            none) := by
         show commit db (markBatchCompleteTx db) = _
         rw [hm2]; rfl
@@ -217,20 +222,20 @@ theorem inv_step {db0 db : DB} {g : Ghost} (h : Inv db0 db g) (op : Op)
         | none => rw [hls] at hl; exact h.wf n o hl
         | some so =>
           rw [hls] at hl; simp [pick] at hl; subst hl
-          obtain ⟨_, _, _, g2, _, _⟩ := h.stagedIn st hst n so hls
+          obtain ⟨_, _, _, g2, _⟩ := h.stagedIn st hst n so hls
           exact g2
       · intro n o0 h0
-        obtain ⟨o, ho, h1, h2, h3, h4⟩ := h.main n o0 h0
+        obtain ⟨o, ho, h1, h2, h3⟩ := h.main n o0 h0
         simp only [gstep]
         rw [lookup_over hs.2.2.2.2.2 n]
         cases hl : lookup n st.orders with
         | none =>
           have hz := h.stagedOut st hst n hl
-          exact ⟨o, by simp [pick, ho], by rw [hz]; exact h1, h2, h3, h4⟩
+          exact ⟨o, by simp [pick, ho], by rw [hz]; exact h1, h2, h3⟩
         | some so =>
-          obtain ⟨o', ho', g1, g2, g3, g4⟩ := h.stagedIn st hst n so hl
+          obtain ⟨o', ho', g1, g2, g3⟩ := h.stagedIn st hst n so hl
           rw [ho] at ho'; injection ho' with ho'; subst ho'
-          refine ⟨so, by simp [pick], ?_, g2, by rw [g3, h3], by rw [g4, h4]⟩
+          refine ⟨so, by simp [pick], ?_, g2, g3.trans h3⟩
           unfold two64 at *; omega
       · intro st' hs'; cases hs'
       · intro st' hs'; cases hs'
@@ -242,7 +247,7 @@ theorem inv_step {db0 db : DB} {g : Ghost} (h : Inv db0 db g) (op : Op)
       have hid : (step db (.stage b)).1 = db := by
         rcases step_stage_cases db b with ⟨e', he⟩ | ⟨a, ha⟩
         · rw [he]
-        · rw [ha] at hres ⊢; exact fail_is_identity db (.stage a) e hres
+        · rw [ha] at hres ⊢; exact fail_is_identity db (.stage a) e (fun _ _ _ _ => by simp) hres
       rw [hid]; exact h
     | none =>
       obtain ⟨o, hd, hst, hna, hno, hid, _, hpo, hev⟩ := stage_ok db b hm hres
@@ -266,7 +271,7 @@ theorem inv_step {db0 db : DB} {g : Ghost} (h : Inv db0 db g) (op : Op)
           | none => simp [hmn, hx] at hl
           | some x =>
             simp [hmn, hx] at hl; subst hl
-            refine ⟨x, rfl, ?_, ?_, rfl, rfl⟩
+            refine ⟨x, rfl, ?_, ?_, rfl⟩
             · simp only [gstep, unitsFor, hmn, filled]; exact remaining_add x.unfilled us
             · simp only [filled]; exact remaining_lt us (h.wf n x hx)
       · intro st' hs' n hl
@@ -294,7 +299,8 @@ theorem inv_grun {db0 db : DB} {g : Ghost} (h : Inv db0 db g) (ops : List Op)
 
 /-- **Sequences of batches.**  From any coherent database with nothing staged, for EVERY history of
 stage-through-`batchStorer` (succeeding or failing) / re-stage / discard / complete / reopen operations and every
-order `n` present at the start: the order still exists with the same `Units` and `MinUnitsMatch`, and
+order `n` present at the start: the order still exists with the same fixed terms (`Units`, `MinUnitsMatch`, type, node tier, TLV
+extras – `Ord.fixed`), and
 
   final unfilled  ≡  initial unfilled − Σ (units of `n` in the COMPLETED batches)   (mod 2^64, Go's uint64),
 
@@ -308,14 +314,14 @@ theorem C13_sequences (db0 : DB) (hc : Coh db0) (hn : NoPending db0)
     ∀ n o0, lookup n db0.orders = some o0 → ∃ o, lookup n r.1.orders = some o ∧
       (o.unfilled + r.2.done n) % two64 = o0.unfilled % two64 ∧
       (r.2.done n ≤ o0.unfilled → o.unfilled = o0.unfilled - r.2.done n) ∧
-      o.units = o0.units ∧ o.minMatch = o0.minMatch := by
+      o.fixed = o0.fixed := by
   intro r n o0 h0
   have hinit : Inv db0 db0 ⟨fun _ => 0, fun _ => 0⟩ := by
-    refine ⟨hc, fun n o0 h => ⟨o0, h, by simp, hwf n o0 h, rfl, rfl⟩, ?_, ?_, fun _ _ => rfl, hwf⟩
+    refine ⟨hc, fun n o0 h => ⟨o0, h, by simp, hwf n o0 h, rfl⟩, ?_, ?_, fun _ _ => rfl, hwf⟩
     · intro st hs; rw [staged_of_noPending hn] at hs; cases hs
     · intro st hs; rw [staged_of_noPending hn] at hs; cases hs
-  obtain ⟨o, ho, h1, h2, h3, h4⟩ := (inv_grun hinit ops hops).main n o0 h0
-  refine ⟨o, ho, h1, ?_, h3, h4⟩
+  obtain ⟨o, ho, h1, h2, h3⟩ := (inv_grun hinit ops hops).main n o0 h0
+  refine ⟨o, ho, h1, ?_, h3⟩
   intro hle
   have hlt := hwf n o0 h0
   change (grun db0 ⟨fun _ => 0, fun _ => 0⟩ ops).2.done n ≤ o0.unfilled at hle
@@ -332,7 +338,7 @@ theorem grun_db (db : DB) (g : Ghost) (ops : List Op) : (grun db g ops).1 = run 
 
 /-! ## non-vacuity -/
 
-def exDb : DB := C06.run DB.init [.addAccount 1 C06.exAcct, .submitOrder 2 ⟨0, 10, 10, 3⟩, .submitOrder 3 ⟨0, 5, 5, 1⟩]
+def exDb : DB := C06.run DB.init [.addAccount 1 C06.exAcct, .submitOrder 2 { state := 0, unfilled := 10, units := 10, minMatch := 3, isBid := true, tier := 1, extras := 6 }, .submitOrder 3 { state := 0, unfilled := 5, units := 5, minMatch := 1 }]
 
 def exBatch (id : Nat) (us : List Nat) : Batch :=
   { id := id, tx := 3, feeOk := true, supportsExt := true, supportsTaproot := false, heightHint := 100,
@@ -344,18 +350,18 @@ example : (keys (exBatch 1 [4, 4]).matched).Nodup := by decide
 example : (step exDb (.stage (exBatch 1 [4, 4]))).2 = none := by decide
 /-- 10 − (4+4) = 2 < min match 3: executed with 2 units left; the event records 8 filled units -/
 example : let d := run exDb [.stage (exBatch 1 [4, 4]), .complete]
-    lookup 2 d.orders = some ⟨orderStateExecuted, 2, 10, 3⟩ ∧ lookup 3 d.orders = some ⟨0, 5, 5, 1⟩ ∧
+    lookup 2 d.orders = some { state := orderStateExecuted, unfilled := 2, units := 10, minMatch := 3, isBid := true, tier := 1, extras := 6 } ∧ lookup 3 d.orders = some { state := 0, unfilled := 5, units := 5, minMatch := 1 } ∧
     (2, Evt.updated 0 orderStateExecuted 8) ∈ d.events := by decide
 /-- 10 − 7 = 3 = min match: partially filled -/
 example : lookup 2 (run exDb [.stage (exBatch 1 [7]), .complete]).orders =
-    some ⟨orderStatePartiallyFilled, 3, 10, 3⟩ := by decide
+    some { state := orderStatePartiallyFilled, unfilled := 3, units := 10, minMatch := 3, isBid := true, tier := 1, extras := 6 } := by decide
 /-- re-staged and discarded versions leave no trace in the fill state: only the completed 7 units count -/
 def exHist : List Op :=
   [.stage (exBatch 1 [4, 4]), .stage (exBatch 2 [9]), .discard, .stage (exBatch 3 [1]), .stage (exBatch 4 [7]),
    .reopen, .complete, .complete]
 
 example : lookup 2 (grun exDb ⟨fun _ => 0, fun _ => 0⟩ exHist).1.orders =
-      some ⟨orderStatePartiallyFilled, 3, 10, 3⟩ ∧
+      some { state := orderStatePartiallyFilled, unfilled := 3, units := 10, minMatch := 3, isBid := true, tier := 1, extras := 6 } ∧
     (grun exDb ⟨fun _ => 0, fun _ => 0⟩ exHist).2.done 2 = 7 := by decide
 
 end Pool.C13
